@@ -102,9 +102,22 @@ def nsx_resume(ctx, n, max_cases):
     return failing, breaks, dict(nsx_resume_cases=len(sel), nsx_resumed_prefix_states=len(where))
 
 
+def panos_corpus():
+    """a rule already set under its new unique name but not yet moved: the left-over name must stay taken"""
+    R = lambda name, action, src, dst, srv: dict(name=name, action=action, frm='z1', to='z2', src=[src], dst=[dst], srv=[srv], extra='')
+    t = P.new_vsys()
+    t['rules'] = [R('r1', 'allow', 'IP_10.1.1.11', 'NET_10.1.2.0_24', 'tcp 80'), R('r2', 'deny', 'any', 'NET_10.1.2.0_24', 'any'),
+                  R('r3', 'allow', 'IP_10.1.1.13', 'NET_10.1.4.0_24', 'tcp 80')]
+    P.finish_objects(t)
+    d = P.new_vsys()
+    d['rules'] = [R('r1', 'deny', 'any', 'NET_10.1.2.0_24', 'any')]
+    P.finish_objects(d)
+    return [dict(tgt=[('vsys1', t)], dev=[('vsys1', d)], edits=[['corpus-resume-rule-set-not-moved']])]
+
+
 def panos_resume(ctx, n, max_cases):
     failing, breaks = [], []
-    cases = c03.corpus() + [c03.gen_case(ctx.rng) for _ in range(n)]
+    cases = panos_corpus() + c03.corpus() + [c03.gen_case(ctx.rng) for _ in range(n)]
     jobs = [dict(model='PAN-OS', device=P.config_xml(c['dev']), netspoc=P.config_xml(c['tgt'])) for c in cases]
     res = drcrun.run_many(ctx, jobs)
     sel = []
